@@ -12,6 +12,21 @@
 (* NextSeq     the handle as a state machine at property level: Open, then up to    *)
 (*             MaxReads reads drawn from a small alphabet of requests; each         *)
 (*             behaviour (hist) is exported (BEH) and replayed on ONE open handle.  *)
+(* NextHist    LONG histories on one handle over a WIDE table (HistCols columns, so    *)
+(*             that dozens of distinct ordered column selections exist): a read is     *)
+(*             two steps (HistPickCols, HistPickRows); the column selection is a NEW    *)
+(*             one, one requested AGAIN, or one of the EARLIEST of the history (a       *)
+(*             lookup cache of k slots needs k+1 distinct selections and then a return   *)
+(*             to an evicted one); rejected calls (out-of-range row lists, unknown       *)
+(*             column names) are interleaved and are stutter steps on the handle.        *)
+(*             Explored with `tlc -simulate` (depth 2 * HistLen + 1), exported (HIST).   *)
+(* NextScale   scale cases: tables of ScaleNs rows (row sizes 12 / 16 / 20 bytes) with    *)
+(*             strided slices and run-length row lists across and at the 2^16 / 2^17 /   *)
+(*             (1 MiB / row size) row boundaries, plus the same generator on SmallNs      *)
+(*             rows where everything can be written out: ScaleLaw ties the closed form    *)
+(*             (ExpRuns, block decomposition) to the exact oracle (ExpRows).             *)
+(* NextRuns    RunsSameSound: the run-length comparison decides equality of the           *)
+(*             denoted sequences, for every pair of encodings of short sequences.         *)
 (* NextCursor  the file cursor protocol of records.cpp (read_text_columns /         *)
 (*             read_binary_columns / read_binary_slice), one action per code step,  *)
 (*             over sequences of reads on one handle: whatever was read before, a   *)
@@ -24,18 +39,32 @@ CONSTANTS MaxN,        \* tables of 1..MaxN rows
           Dev,         \* deviations switched on in the mechanism model (see Select.tla)
           MaxReads,    \* reads per handle in NextSeq / NextCursor
           SeqN,        \* table sizes used by NextSeq / NextCursor
+          HistCols,    \* widths of the tables of NextHist
+          HistN,       \* their numbers of rows
+          HistLen,     \* reads per long history
+          ScaleNs,     \* numbers of rows of the scale tables (NextScale)
+          SmallNs,     \* the same generator on tables small enough to be written out
+          ScaleSteps,  \* strides of the scale slices
+          ScaleThin,   \* 1 in ScaleThin of the scale cases of a large table is exported
+          RunsMaxLen,  \* NextRuns: sequences over 0..2 of length <= RunsMaxLen
           DoExport
 
 VARIABLES phase, n, rq, cq, opt,      \* NextCases
           h, hist,                    \* NextSeq (and NextCursor: h)
-          pos, cur, job, out          \* NextCursor
-vars == <<phase, n, rq, cq, opt, h, hist, pos, cur, job, out>>
+          pos, cur, job, out,         \* NextCursor
+          hmode,                      \* NextHist: how the next column selection is drawn
+          sc,                         \* NextScale: the scale case
+          xa, xb                      \* NextRuns: two short sequences
+ext  == <<hmode, sc, xa, xb>>
+vars == <<phase, n, rq, cq, opt, h, hist, pos, cur, job, out, hmode, sc, xa, xb>>
 
+NoScale == [n |-> 0, rs |-> 0, nc |-> 0, rq |-> RAll, cq |-> CAll, parts |-> <<>>]
 NoJob == [kind |-> "none", rows |-> <<>>, cols |-> <<>>, i |-> 0, j |-> 0, s |-> 0, e |-> 0, st |-> 0]
 
 Init == /\ phase = "start" /\ n = 0 /\ rq = RAll /\ cq = CAll /\ opt = "none"
         /\ h = HClose(HOpen(0)) /\ hist = <<>>
         /\ pos = 0 /\ cur = <<0, 0>> /\ job = NoJob /\ out = <<>>
+        /\ hmode = 1 /\ sc = NoScale /\ xa = <<>> /\ xb = <<>>
 
 \* ---- the bounded request space -----------------------------------------------------
 Bounds(k)  == ((-k - 2)..(k + 2)) \cup {None}
@@ -57,15 +86,15 @@ Opts    == {"none", "split", "reduce"}
 \* ---- NextCases ------------------------------------------------------------------------
 ChooseN == /\ phase = "start"
            /\ \E k \in 1..MaxN : n' = k
-           /\ phase' = "n" /\ UNCHANGED <<rq, cq, opt, h, hist, pos, cur, job, out>>
+           /\ phase' = "n" /\ UNCHANGED <<rq, cq, opt, h, hist, pos, cur, job, out, ext>>
 
 ChooseRows == /\ phase = "n"
               /\ \E r \in RowReqs(n) : rq' = r
-              /\ phase' = "rows" /\ UNCHANGED <<n, cq, opt, h, hist, pos, cur, job, out>>
+              /\ phase' = "rows" /\ UNCHANGED <<n, cq, opt, h, hist, pos, cur, job, out, ext>>
 
 ChooseCols == /\ phase = "start"
               /\ \E c \in ColReqs : \E o \in Opts : cq' = c /\ opt' = o
-              /\ phase' = "cols" /\ UNCHANGED <<n, rq, h, hist, pos, cur, job, out>>
+              /\ phase' = "cols" /\ UNCHANGED <<n, rq, h, hist, pos, cur, job, out, ext>>
 
 NextCases == ChooseN \/ ChooseRows \/ ChooseCols
 
@@ -112,6 +141,184 @@ ExportCases ==
                                                    RecfilePost(Dev, cq, "fields", opt = "split") \in ExpShapes(cq, opt)),
                                       devs |-> ~(SFilePost(Dev, cq, opt) \in ExpShapes(cq, opt))])>>)
 
+\* ---- theorems behind the scale cases, on the small scope (NextCases, phase "rows") ---------
+\* the closed form in runs is the written-out selection
+RunsLaw == phase = "rows" =>
+    /\ RowMode(n, rq) \in {"det", "either"} => RunsExpand(ExpRuns(n, rq)) = ExpRows(n, rq)
+    /\ RunsWF(ExpRuns(n, rq))
+\* cut the table anywhere: the selection is the concatenation of the selections from the two
+\* parts (second part shifted); and, on the table itself, of the block sub-slices
+ConcatLaw == phase = "rows" =>
+    /\ rq.k = "slice" =>
+          \A p \in 0..n :
+             /\ ExpRows(n, rq) = SliceConcat(n, rq, p)
+             /\ ExpRows(n, rq) = ExpRows(n, SliceBlock(n, rq, 0, p)) \o ExpRows(n, SliceBlock(n, rq, p, n - p))
+             /\ \A x \in VRange(ExpRows(n, SliceBlock(n, rq, p, n - p))) : x >= p
+    /\ rq.k = "slice" =>
+          \A len \in 1..n :
+             LET bl == SliceBlocks(n, rq, len)
+                 RECURSIVE Cat(_)
+                 Cat(k) == IF k > Len(bl) THEN <<>> ELSE ExpRows(n, bl[k]) \o Cat(k + 1)
+             IN Cat(1) = ExpRows(n, rq)
+    /\ (rq.k = "list" /\ RowMode(n, rq) = "det") =>
+          \A p \in 0..n : ExpRows(n, rq) = ListConcat(n, rq.rs, p)
+
+\* ---- a block-buffered strided reader (mechanism level; a lead, like the cursor protocol) -----------
+\* the covered file region is pulled through a buffer of len rows and every st-th row is copied out
+\* of it.  The index of the next wanted row inside a block is the stride phase carried over from the
+\* block before; a reader that restarts it at the block start (Dev: "phase_restart") delivers wrong
+\* rows after the first block whenever st does not divide len.
+BlockStart(a, st, p) == IF "phase_restart" \in Dev THEN (IF a >= p THEN a ELSE p) ELSE PhaseFrom(a, st, p)
+RECURSIVE BlockRead(_, _, _, _, _)
+BlockRead(a, b, st, p, len) ==
+    IF p >= b THEN <<>>
+    ELSE VArange(BlockStart(a, st, p), VMin2(b, p + len), st) \o BlockRead(a, b, st, p + len, len)
+BlockRefines == (phase = "rows" /\ rq.k = "slice") =>
+    \A len \in 1..(n + 1) :
+        LET a == PyBound(n, rq.s, 0)  b == PyBound(n, rq.e, n)
+        IN BlockRead(a, b, PyStep(rq.st), a, len) = ExpRows(n, rq)
+
+\* ---- NextRuns: RunsSame is sound and complete ---------------------------------------------------
+ShortSeqs == UNION {[1..len -> 0..2] : len \in 0..RunsMaxLen}
+IsArith(x, k) == \A i \in 2..k : x[i] - x[i - 1] = x[2] - x[1]
+\* every run-length encoding of x; d = the (irrelevant) step written into one-element runs
+RECURSIVE Enc(_, _)
+Enc(x, d) == IF Len(x) = 0 THEN {<<>>}
+             ELSE UNION {{<<<<x[1], IF k = 1 THEN d ELSE x[2] - x[1], k>>>> \o R : R \in Enc(SubSeq(x, k + 1, Len(x)), d)}
+                         : k \in {kk \in 1..Len(x) : IsArith(x, kk)}}
+ChooseXa == /\ phase = "start" /\ \E x \in ShortSeqs : xa' = x
+            /\ phase' = "xa" /\ UNCHANGED <<n, rq, cq, opt, h, hist, pos, cur, job, out, hmode, sc, xb>>
+ChooseXb == /\ phase = "xa" /\ \E x \in ShortSeqs : xb' = x
+            /\ phase' = "xab" /\ UNCHANGED <<n, rq, cq, opt, h, hist, pos, cur, job, out, hmode, sc, xa>>
+NextRuns == ChooseXa \/ ChooseXb
+NextLaws == NextCases \/ NextRuns          \* the theorems of the spec in one run
+RunsSameSound == phase = "xab" =>
+    \A A \in Enc(xa, 0) : \A B \in Enc(xb, 7) :
+        /\ RunsExpand(A) = xa /\ RunsWF(A) /\ RunsWF(B)
+        /\ RunsSame(A, B) <=> (xa = xb)
+
+\* ---- NextHist: long histories on one handle over a wide table ---------------------------------------
+HistRowsBasic(k) == {RAll, RScalar(-1), RList(<<k - 1, 0>>), RList(<<k>>), RSlice(1, None, None), RSlice(None, None, 2)}
+HistRows(k) == HistRowsBasic(k) \cup {RScalar(r) : r \in (-k)..(k - 1)}
+               \cup {RList(<<a, b>>) : a, b \in 0..(k - 1)}
+               \cup {RSlice(a, None, None) : a \in 0..k} \cup {RSlice(None, a, None) : a \in (-k)..(-1)}
+Nxt(c, w)   == (c % w) + 1
+HistColReqs(w) == {CAll, CList(<<w + 1>>), CList(<<1, w + 1>>)}                \* w + 1: not a column
+                  \cup {CName(c) : c \in 1..w} \cup {CList(<<c>>) : c \in 1..w}
+                  \cup ({CList(<<c, d>>) : c, d \in 1..w} \ {CList(<<c, c>>) : c \in 1..w})
+                  \cup {CList(<<c, Nxt(c, w), Nxt(Nxt(c, w), w)>>) : c \in 1..w}
+                  \cup {CList(<<Nxt(Nxt(c, w), w), c, Nxt(c, w)>>) : c \in 1..w}
+Seen == {hist[i].cq : i \in DOMAIN hist}
+\* hmode 1..3: a column selection not yet requested on this handle, any row request;
+\* 4: the columns of any earlier read again; 5: those of one of the first three reads again
+\* (4, 5: with the rows of that read, or with one of the basic row requests)
+HistOpen == /\ phase = "start"
+            /\ \E k \in HistN : \E w \in HistCols : h' = HOpenT(k, w)
+            /\ phase' = "hist" /\ UNCHANGED <<n, rq, cq, opt, hist, pos, cur, job, out, ext>>
+
+HistPickCols ==
+    /\ phase = "hist" /\ Len(hist) < HistLen
+    /\ IF hist = <<>> \/ hmode <= 3
+       THEN \E c \in HistColReqs(h.nc) \ Seen : cq' = c /\ rq' = RAll /\ opt' = "new"
+       ELSE \E i \in (IF hmode = 4 THEN DOMAIN hist ELSE 1..VMin2(3, Len(hist))) :
+               cq' = hist[i].cq /\ rq' = hist[i].rq /\ opt' = "again"
+    /\ \E m \in 1..5 : hmode' = m
+    /\ phase' = "histrows" /\ UNCHANGED <<n, h, hist, pos, cur, job, out, sc, xa, xb>>
+
+HistPickRows ==
+    /\ phase = "histrows"
+    /\ \E r \in (IF opt = "again" THEN HistRowsBasic(h.n) \cup {rq} ELSE HistRows(h.n)) : \E o \in Opts :
+          /\ r.k = "slice" => o = "none"
+          /\ hist' = hist \o <<Req(r, cq, o)>>
+          /\ h' = HRead(h, Req(r, cq, o))
+    /\ phase' = "hist" /\ UNCHANGED <<n, rq, cq, opt, pos, cur, job, out, ext>>
+
+NextHist == HistOpen \/ HistPickCols \/ HistPickRows
+
+\* the handle is what it was when opened, whatever was requested (served or rejected)
+HistStable == phase \in {"hist", "histrows"} => h.open /\ h.nreads = Len(hist) /\ h.n \in HistN /\ h.nc \in HistCols
+ExportHist == (DoExport /\ phase = "hist" /\ Len(hist) = HistLen) =>
+                  PrintT(<<"HIST", ToJson([n |-> h.n, nc |-> h.nc, reqs |-> hist])>>)
+
+\* ---- NextScale ------------------------------------------------------------------------------------------
+\* a scale table: n rows of rs bytes (rs = 0: a small table, 3 columns, blocks of 3 rows);
+\* boundaries: the rows at which a 2^16- / 2^17-row or a 1 MiB block ends
+IsSmall(k)      == k \in SmallNs
+BlockRows(k, b) == IF IsSmall(k) THEN 3 ELSE 1048576 \div b
+ScaleNc(b)      == IF b = 12 THEN 2 ELSE 3
+ScaleBounds(k, b) == IF IsSmall(k) THEN {3, 4}
+                     ELSE {x \in {65536, 131072, BlockRows(k, b), 2 * BlockRows(k, b)} : x + 8 < k}
+ScaleSlices(k, Bd) ==
+    {RSlice(s, e, st) : s \in {None, 0, 1, 5, -(k - 1)} \cup {b - 1 : b \in Bd} \cup {b + 1 : b \in Bd},
+                        e \in {None, k + 7, -3} \cup {b + 1 : b \in Bd},
+                        st \in ScaleSteps \cup {None}}
+\* (three sets: TLC cannot hold run lists and plain lists in one set)
+ScaleRuns(k, Bd) ==
+    {RRuns(<<<<b - 3, 1, 7>>>>) : b \in Bd} \cup {RRuns(<<<<b - 4, 3, 4>>>>) : b \in Bd}
+    \cup {RRuns(<<<<b + 1, 1, 3>>, <<0, 2, 2>>>>) : b \in Bd}                   \* runs out of order
+    \cup {RRuns(<<<<b + 2, -1, 5>>>>) : b \in Bd}                                \* descending
+    \cup {RRuns(<<<<b - 1, 1, 3>>, <<b - 1, 1, 3>>>>) : b \in Bd}                \* every row twice
+    \cup {RRuns(<<<<b, 0, 3>>, <<b - 2, 1, 2>>>>) : b \in Bd}                    \* one row three times
+    \cup {RRuns(<<<<b - 1, 2, 3>>, <<b, 2, 2>>>>) : b \in Bd}                    \* interleaved: outside the closed form
+    \cup {RRuns(<<<<0, st, ((k - 1) \div st) + 1>>>>) : st \in {2, 3}}           \* every st-th row of the table
+    \cup {RRuns(<<<<1, 1, k - 1>>>>), RRuns(<<<<k - 2, 1, 3>>>>), RRuns(<<<<k - 1, 1, 1>>, <<0, 5, ((k - 1) \div 5) + 1>>>>)}
+ScaleLists(k, Bd) == {RList(<<b, 0, b - 1, b>>) : b \in Bd} \cup {RList(<<k>>), RList(<<k - 1, 0>>)}
+ScaleCols(w) == {CAll, CName(1), CList(<<w, 1>>), CList(<<2>>)}
+ReqHash(r) == (IF r.s = None THEN 1 ELSE VAbs(r.s) + 2) + 3 * (IF r.e = None THEN 1 ELSE VAbs(r.e) + 2) + 7 * (IF r.st = None THEN 0 ELSE r.st)
+              + 11 * Len(r.rs) + (IF Len(r.rs) > 0 /\ r.k = "runs" THEN 13 * VAbs(r.rs[1][1]) + 5 * VAbs(r.rs[1][2]) ELSE 0)
+ColHash(c) == IF c.k = "all" THEN 0 ELSE IF c.k = "name" THEN 1 ELSE 1 + Len(c.cs)
+ScaleKeep(k, b, r, c) == IsSmall(k) \/ ((ReqHash(r) + 17 * ColHash(c) + (k % 7) + b) % ScaleThin = 0)
+
+ChooseScaleOf(Reqs(_, _)) ==
+    /\ phase = "start"
+    /\ \E k \in ScaleNs \cup SmallNs : \E b \in (IF IsSmall(k) THEN {0} ELSE {12, 16, 20}) :
+       \E r \in Reqs(k, ScaleBounds(k, b)) :
+       \E c \in ScaleCols(IF IsSmall(k) THEN NCols ELSE ScaleNc(b)) :
+          /\ ScaleKeep(k, b, r, c)
+          /\ sc' = [n |-> k, rs |-> b, nc |-> IF IsSmall(k) THEN NCols ELSE ScaleNc(b), rq |-> r, cq |-> c,
+                    parts |-> IF r.k = "slice" THEN SliceBlocks(k, r, BlockRows(k, b)) ELSE <<>>]
+    /\ phase' = "scale" /\ UNCHANGED <<n, rq, cq, opt, h, hist, pos, cur, job, out, hmode, xa, xb>>
+ChooseScale == ChooseScaleOf(ScaleSlices) \/ ChooseScaleOf(ScaleRuns) \/ ChooseScaleOf(ScaleLists)
+NextScale == ChooseScale
+
+\* the law in closed form, for every scale case however large: the block sub-slices, in runs,
+\* concatenate to the runs of the whole slice; every part lies inside its block
+RECURSIVE PartsRuns(_, _, _)
+PartsRuns(k, parts, i) == IF i > Len(parts) THEN <<>> ELSE ExpRuns(k, parts[i]) \o PartsRuns(k, parts, i + 1)
+ScaleBlocks == phase = "scale" =>
+    /\ RunsWF(ExpRuns(sc.n, sc.rq))
+    /\ sc.rq.k = "slice" =>
+          /\ RunsSame(PartsRuns(sc.n, sc.parts, 1), ExpRuns(sc.n, sc.rq))
+          /\ \A i \in DOMAIN sc.parts :
+                LET L == BlockRows(sc.n, sc.rs)  x == ExpRuns(sc.n, sc.parts[i]) IN
+                x # <<>> => x[1][1] >= (i - 1) * L /\ RunLast(x[1]) < i * L
+\* ... and on the small tables the closed form IS the written-out oracle: what the trace module
+\* demands of a run-length observation is what it demands of the written-out one
+ScaleLaw == (phase = "scale" /\ IsSmall(sc.n)) =>
+    LET k == sc.n  r == sc.rq  m == RowMode(k, r)
+        q == Req(r, sc.cq, "none")
+        sh == CHOOSE x \in ExpShapesN(sc.nc, sc.cq, "none") : TRUE
+        long(rows)  == Result(sh, ExpColsN(sc.nc, sc.cq), rows)
+        short(runs) == [err |-> "none", shape |-> sh, cols |-> ExpColsN(sc.nc, sc.cq), runs |-> runs]
+    IN /\ m \in {"det", "either"} => RunsExpand(ExpRuns(k, r)) = ExpRows(k, r)
+       /\ r.k = "runs" =>
+             LET lst == RList(RunsExpand(r.rs)) IN
+             /\ m = "reject" <=> RowMode(k, lst) = "reject"
+             /\ m = "det" => RowMode(k, lst) = "det" /\ ExpRows(k, lst) = ExpRows(k, r)
+       /\ m = "det" =>
+             /\ FailingT(k, sc.nc, q, short(ExpRuns(k, r))) = {} /\ FailingT(k, sc.nc, q, long(ExpRows(k, r))) = {}
+             /\ FailingT(k, sc.nc, q, Rejected) # {}
+             /\ \A d \in {1, 2} :          \* a run whose phase slipped by d is rejected
+                   ExpRuns(k, r) # <<>> =>
+                      LET x == ExpRuns(k, r)
+                          bad == [x EXCEPT ![Len(x)] = <<@[1] + d, @[2], @[3]>>]
+                      IN FailingT(k, sc.nc, q, short(bad)) = {RowClause(r)}
+       /\ m = "reject" => FailingT(k, sc.nc, q, Rejected) = {} /\ FailingT(k, sc.nc, q, short(<<>>)) # {}
+ExportScale == (DoExport /\ phase = "scale") =>
+                  PrintT(<<"SCALE", ToJson([n |-> sc.n, rs |-> sc.rs, nc |-> sc.nc, rq |-> sc.rq, cq |-> sc.cq,
+                                            parts |-> IF RowMode(sc.n, sc.rq) = "det" THEN sc.parts ELSE <<>>,
+                                            mode |-> RowMode(sc.n, sc.rq)])>>)
+
 \* ---- NextSeq: behaviours of one handle at property level ---------------------------------
 SeqRows(k) == {RAll, RScalar(0), RScalar(-1), RList(<<k - 1>>), RList(<<k - 1, 0>>), RList(<<k>>),
                RSlice(1, None, None), RSlice(None, -1, None), RSlice(None, None, 2), RSlice(k, None, None)}
@@ -121,17 +328,17 @@ SeqReqs(k) == {Req(r, c, "none") : r \in SeqRows(k), c \in {CAll, CList(<<3, 1>>
 
 Open == /\ phase = "start"
         /\ \E k \in SeqN : h' = HOpen(k)
-        /\ phase' = "idle" /\ UNCHANGED <<n, rq, cq, opt, hist, pos, cur, job, out>>
+        /\ phase' = "idle" /\ UNCHANGED <<n, rq, cq, opt, hist, pos, cur, job, out, ext>>
 
 Read == /\ phase = "idle" /\ h.open /\ h.nreads < MaxReads
         /\ \E q \in SeqReqs(h.n) : h' = HRead(h, q) /\ hist' = hist \o <<q>>
-        /\ UNCHANGED <<phase, n, rq, cq, opt, pos, cur, job, out>>
+        /\ UNCHANGED <<phase, n, rq, cq, opt, pos, cur, job, out, ext>>
 
 NextSeq == Open \/ Read
 
 \* a read never changes what a later read returns: the handle's n is constant and open
 HandleStable == phase = "idle" => h.open /\ h.nreads = Len(hist)
-HandleStep   == [][phase = "idle" => h'.n = h.n /\ h'.open]_vars
+HandleStep   == [][(phase \in {"idle", "hist", "histrows"}) => h'.n = h.n /\ h'.nc = h.nc /\ h'.open]_vars
 
 ExportSeq == (DoExport /\ phase = "idle" /\ hist # <<>>) => PrintT(<<"BEH", ToJson([n |-> h.n, reqs |-> hist])>>)
 
@@ -146,28 +353,28 @@ ColSets    == {VSortSet(S) : S \in (SUBSET (1..NCols)) \ {{}}}
 
 COpen == /\ phase = "start"
          /\ \E k \in SeqN : h' = HOpen(k)
-         /\ phase' = "idle" /\ UNCHANGED <<n, rq, cq, opt, hist, pos, cur, job, out>>
+         /\ phase' = "idle" /\ UNCHANGED <<n, rq, cq, opt, hist, pos, cur, job, out, ext>>
 
 \* read_columns(data, colnums, rows)
 BeginColumns ==
     /\ phase = "idle" /\ h.nreads < MaxReads
     /\ \E R \in RowSets(h.n) : \E C \in ColSets :
           job' = [NoJob EXCEPT !.kind = "columns", !.rows = R, !.cols = C, !.i = 1, !.j = 1]
-    /\ phase' = "goto" /\ out' = <<>> /\ UNCHANGED <<n, rq, cq, opt, h, hist, pos, cur>>
+    /\ phase' = "goto" /\ out' = <<>> /\ UNCHANGED <<n, rq, cq, opt, h, hist, pos, cur, ext>>
 
 \* read_binary_slice(data, start, stop, step) after _process_slice (0 <= s <= e <= n)
 BeginSlice ==
     /\ phase = "idle" /\ h.nreads < MaxReads
     /\ \E s \in 0..h.n : \E e \in s..h.n : \E st \in 1..2 :
           job' = [NoJob EXCEPT !.kind = "slice", !.s = s, !.e = e, !.st = st, !.i = s]
-    /\ phase' = "goto" /\ out' = <<>> /\ UNCHANGED <<n, rq, cq, opt, h, hist, pos, cur>>
+    /\ phase' = "goto" /\ out' = <<>> /\ UNCHANGED <<n, rq, cq, opt, h, hist, pos, cur, ext>>
 
 GotoOffset ==
     /\ phase = "goto"
     /\ pos' = IF "no_goto" \in Dev THEN pos ELSE 0
     /\ cur' = <<0, 0>>
     /\ phase' = IF job.kind = "columns" THEN "row" ELSE "first"
-    /\ UNCHANGED <<n, rq, cq, opt, h, hist, job, out>>
+    /\ UNCHANGED <<n, rq, cq, opt, h, hist, job, out, ext>>
 
 \* columns reader ------------------------------------------------------------------------
 SkipRows ==       \* if (row2read > current_row) skip_rows(current_row, row2read)
@@ -176,7 +383,7 @@ SkipRows ==       \* if (row2read > current_row) skip_rows(current_row, row2read
        /\ pos' = pos + d * NCols
        /\ cur' = <<cur[1] + d, 0>>
     /\ phase' = "col" /\ job' = [job EXCEPT !.j = 1]
-    /\ UNCHANGED <<n, rq, cq, opt, h, hist, out>>
+    /\ UNCHANGED <<n, rq, cq, opt, h, hist, out, ext>>
 
 ReadCell ==       \* skip to the column (skip_ascii_col_range / do_seek), read it
     /\ phase = "col" /\ job.j <= Len(job.cols)
@@ -185,7 +392,7 @@ ReadCell ==       \* skip to the column (skip_ascii_col_range / do_seek), read i
        /\ pos' = pos + d + 1
        /\ cur' = <<cur[1], cur[2] + d + 1>>
     /\ job' = [job EXCEPT !.j = @ + 1]
-    /\ UNCHANGED <<phase, n, rq, cq, opt, h, hist>>
+    /\ UNCHANGED <<phase, n, rq, cq, opt, h, hist, ext>>
 
 SkipRest ==       \* skip the rest of the row if needed; current_row++
     /\ phase = "col" /\ job.j > Len(job.cols)
@@ -194,26 +401,26 @@ SkipRest ==       \* skip the rest of the row if needed; current_row++
        /\ cur' = <<cur[1] + 1, 0>>
     /\ job' = [job EXCEPT !.i = @ + 1]
     /\ phase' = "row"
-    /\ UNCHANGED <<n, rq, cq, opt, h, hist, out>>
+    /\ UNCHANGED <<n, rq, cq, opt, h, hist, out, ext>>
 
 \* slice reader --------------------------------------------------------------------------
 SkipFirst ==      \* if (row1 > 0) skip_binary_rows(row1)
     /\ phase = "first"
     /\ pos' = pos + job.s * NCols
-    /\ phase' = "srow" /\ UNCHANGED <<n, rq, cq, opt, h, hist, cur, job, out>>
+    /\ phase' = "srow" /\ UNCHANGED <<n, rq, cq, opt, h, hist, cur, job, out, ext>>
 
 ReadRow ==        \* fread one row, skip_binary_rows(step - 1)
     /\ phase = "srow" /\ job.i < job.e
     /\ out' = out \o <<CellAt(pos), CellAt(pos + 1), CellAt(pos + 2)>>
     /\ pos' = pos + job.st * NCols
     /\ job' = [job EXCEPT !.i = @ + job.st]
-    /\ UNCHANGED <<phase, n, rq, cq, opt, h, hist, cur>>
+    /\ UNCHANGED <<phase, n, rq, cq, opt, h, hist, cur, ext>>
 
 EndRead ==
     /\ \/ phase = "row" /\ job.i > Len(job.rows)
        \/ phase = "srow" /\ job.i >= job.e
     /\ phase' = "idle" /\ h' = HRead(h, job)
-    /\ UNCHANGED <<n, rq, cq, opt, hist, pos, cur, job, out>>
+    /\ UNCHANGED <<n, rq, cq, opt, hist, pos, cur, job, out, ext>>
 
 NextCursor == COpen \/ BeginColumns \/ BeginSlice \/ GotoOffset \/ SkipRows \/ ReadCell \/ SkipRest
               \/ SkipFirst \/ ReadRow \/ EndRead
